@@ -58,10 +58,14 @@ impl Check for C10 {
             Phase { name: "kty variants x position, key_ops variants, label alphabet", cases: scale(if q { 240000 } else { 800000 }, b), exhaustive: false },
             Phase { name: "all 16 subsets of the optional typed fields x extras profiles", cases: 16 * 4, exhaustive: true },
             Phase { name: "key sets of 0-4 keys with a fault at each index", cases: scale(if q { 32000 } else { 100000 }, b), exhaustive: false },
+            Phase { name: "birthday: keys with 2^18 pairwise distinct text / integer labels", cases: 2, exhaustive: true },
         ]
     }
     fn run_case(&self, ctx: &mut Ctx, phase: usize, idx: u64) {
         match phase {
+            6 => {
+                super::common::birthday_case(ctx, 2 + idx);
+            }
             0 => iff::valid_case(ctx, TYPES[(idx % 2) as usize], &TYPES),
             1 => iff::enum_case(ctx, if idx % 5 == 4 { Ty::KeySet } else { Ty::Key }, SALT, idx, &TYPES, 1),
             2 => iff::mutant_case(ctx, TYPES[(idx % 2) as usize], &TYPES),
@@ -177,7 +181,7 @@ impl Check for C10 {
         }
     }
     fn rule(&self) -> String {
-        "key maps generated as: valid model keys (kty registered or text, every optional field, extras over {0..6, negative key-type-specific labels, private, texts, 64-bit extremes}) and key sets of 0-4 keys, canonical + 3 random encodings; complete single-fault neighbourhood of fixed bases; 1-3 random faults; kty absent/reserved/unregistered/text/wrong kind at every position; key_ops with registered, unregistered, repeated (int and text), empty and wrong-kind entries; all 16 typed-field subsets x 4 extras profiles; key sets with a fault at each index. Offered to CoseKey and CoseKeySet via from_slice and from_cbor_value. Oracle: accept iff the reference model accepts; fields equal (key_ops as a set), extras in wire order. Non-trivial = distinct encodings.".into()
+        "key maps generated as: valid model keys (kty registered or text, every optional field, extras over {0..6, negative key-type-specific labels, private, texts, 64-bit extremes}) and key sets of 0-4 keys, canonical + 3 random encodings; complete single-fault neighbourhood of fixed bases; 1-3 random faults; kty absent/reserved/unregistered/text/wrong kind at every position; key_ops with registered, unregistered, repeated (int and text), empty and wrong-kind entries; all 16 typed-field subsets x 4 extras profiles; key sets with a fault at each index. Offered to CoseKey and CoseKeySet via from_slice and from_cbor_value. Oracle: accept iff the reference model accepts; fields equal (key_ops as a set), extras in wire order. Birthday workload: 2^18 pairwise distinct labels (8-character texts / 64-bit integers / private-use integers) in one map must all be accepted and come back in order (a duplicate detector keyed on anything shorter than the label would report a duplicate that is not there). Non-trivial = distinct encodings.".into()
     }
     fn assumptions(&self) -> Vec<String> {
         super::std_assumptions()
